@@ -1,5 +1,5 @@
 /* C06 correspondence harness.
-   One line in:   <xml hex> <version 0..3> <use_strtbl 0|1> <keep_ws 0|1> <anonymous 0|1>
+   One line in:   <xml hex> <version 0..3> <use_strtbl 0|1> <keep_ws 0|1> <anonymous 0|1> [<text public id 0|1>]
    One line out:  T <OK|ERR code> <tree dump> | W <OK|ERR code> <wbxml hex>
    The tree is the library's own (Expat front end, wbxml_tree_from_xml) and is dumped BEFORE encoding
    because the encoder trims text nodes in place.  Tree dump (prefix notation, space separated):
@@ -15,6 +15,7 @@
 #include "vh.h"
 #include "wbxml.h"
 #include "wbxml_tree.h"
+#include "wbxml_encoder.h"
 #include "wbxml_tables.h"
 #include "wbxml_elt.h"
 #include "wbxml_lists.h"
@@ -111,7 +112,27 @@ int main(void) {
         }
         printf("T OK");
         dump_tree(tree);
-        e = wbxml_tree_to_wbxml(tree, &out, &outlen, &p);
+        if (nt >= 6 && atoi(tok[5])) {
+            /* wbxml_tree_to_wbxml with one more setter: wbxml_encoder_set_text_public_id(TRUE) (the conversion parameters
+               have no field for it) */
+            WBXMLEncoder *enc = wbxml_encoder_create();
+            if (enc == NULL) e = WBXML_ERROR_NOT_ENOUGH_MEMORY;
+            else {
+                wbxml_encoder_set_tree(enc, tree);
+                wbxml_encoder_set_wbxml_version(enc, p.wbxml_version);
+                if (!p.keep_ignorable_ws) {
+                    wbxml_encoder_set_ignore_empty_text(enc, TRUE);
+                    wbxml_encoder_set_remove_text_blanks(enc, TRUE);
+                }
+                wbxml_encoder_set_use_strtbl(enc, p.use_strtbl);
+                wbxml_encoder_set_produce_anonymous(enc, p.produce_anonymous);
+                wbxml_encoder_set_text_public_id(enc, TRUE);
+                e = wbxml_encoder_encode_to_wbxml(enc, &out, &outlen);
+                wbxml_encoder_destroy(enc);
+            }
+        }
+        else
+            e = wbxml_tree_to_wbxml(tree, &out, &outlen, &p);
         if (e != WBXML_OK) printf(" | W ERR %d\n", (int) e);
         else { printf(" | W OK "); vh_puthex(stdout, out, outlen); printf("\n"); }
         if (out) wbxml_free(out);
